@@ -7,18 +7,19 @@ import DustVerif.Driver.Util
 
     writer automaton:  wreset <drainOnGone 0|1> | wmatch <rid> <rel|be> | wwrite | wack <rid> <base> <count> |
                        wunmatch <rid> | wgone <rid>,<rid>.. | wwait <id> | wstate
-    reader automaton:  rreset <rel|be> <vol|tl> | rmatch | rdata <sn> | rgap <start> <base> <set|-> |
-                       rhb <first> <last> <count> <F|f> <L|l> | rwait <id> | rstate -/
+    reader automaton (any number of matched writers, wid = writer id):  rreset <rel|be> <vol|tl> | rmatch <wid> |
+                       rdata <wid> <sn> | rgap <wid> <start> <base> <set|-> | rhb <wid> <first> <last> <count> <F|f> <L|l> |
+                       rwait <id> | rstate -/
 namespace DustVerif.Driver.AckWaitEngine
 open DustVerif.AckWait DustVerif.Rtps DustVerif.Driver
 
 structure DSt where
   d : Bool
   w : St
-  r : RSt
+  r : MSt
   poisoned : Bool
 
-def initR (rel vol : Bool) : RSt := { r := { reliable := rel, proxy := none, cache := [] }, volatile := vol, waiters := [] }
+def initR (rel vol : Bool) : MSt := { ws := [], reliable := rel, volatile := vol, waiters := [] }
 def init : DSt := { d := false, w := St.init, r := initR true false, poisoned := false }
 
 def csv (xs : List Nat) : String := if xs.isEmpty then "-" else String.intercalate "," (xs.map toString)
@@ -36,7 +37,16 @@ def showOut (ds : List Dgram) : String :=
 
 def wans (x : St × List Nat) (st : DSt) : DSt × String := ({ st with w := x.1 }, s!"ok {csv x.2}")
 
-def rans (st : DSt) (o : Out (RSt × RAns × List Dgram)) : DSt × String :=
+def cacheOf (s : MSt) (wid : Nat) : List Nat :=
+  match s.ws.find? (hasWid wid) with
+  | some x => x.2.cache.map (·.sn)
+  | none => []
+
+def dots (xs : List Nat) : String := if xs.isEmpty then "-" else String.intercalate "." (xs.map toString)
+def allCaches (s : MSt) : String :=
+  if s.ws.isEmpty then "-" else String.intercalate ";" (s.ws.map (fun x => s!"{x.1}:{dots (x.2.cache.map (·.sn))}"))
+
+def rans (st : DSt) (wid : Nat) (o : Out (MSt × RAns × List Dgram)) : DSt × String :=
   match o with
   | .panic => ({ st with poisoned := true }, "PANIC")
   | .ok (r', a, out) =>
@@ -44,7 +54,7 @@ def rans (st : DSt) (o : Out (RSt × RAns × List Dgram)) : DSt × String :=
       | .none => "-"
       | .ok ids => csv ids
       | .illegal _ => "illegal"
-    ({ st with r := r' }, s!"ok {ans} | {csv (r'.r.cache.map (·.sn))} | {showOut out}")
+    ({ st with r := r' }, s!"ok {ans} | {csv (cacheOf r' wid)} | {showOut out}")
 
 def step (st : DSt) (line : String) : DSt × String :=
   match toks line with
@@ -77,20 +87,22 @@ def step (st : DSt) (line : String) : DSt × String :=
     | ["rreset", rel, dur] =>
       if (rel == "rel" || rel == "be") && (dur == "vol" || dur == "tl") then ({ st with r := initR (rel == "rel") (dur == "vol") }, "ok")
       else (st, "bad-op")
-    | ["rmatch"] => rans st (rstep Cfg.fixed st.r .matchWriter)
-    | ["rdata", sn] => match sn.toNat? with
-      | some sn => rans st (rstep Cfg.fixed st.r (.sub (.data sn [sn])))
+    | ["rmatch", wid] => match wid.toNat? with
+      | some wid => rans st wid (mstep Cfg.fixed st.r (.matchWriter wid))
       | none => (st, "bad-op")
-    | ["rgap", a, b, set] => match a.toNat?, b.toNat?, uncsv set with
-      | some a, some b, some set => rans st (rstep Cfg.fixed st.r (.sub (.gap a b set)))
-      | _, _, _ => (st, "bad-op")
-    | ["rhb", a, b, c, fin, lv] => match a.toNat?, b.toNat?, c.toNat? with
-      | some a, some b, some c => rans st (rstep Cfg.fixed st.r (.sub (.hb a b c (fin == "F") (lv == "L"))))
-      | _, _, _ => (st, "bad-op")
+    | ["rdata", wid, sn] => match wid.toNat?, sn.toNat? with
+      | some wid, some sn => rans st wid (mstep Cfg.fixed st.r (.sub wid (.data sn [sn])))
+      | _, _ => (st, "bad-op")
+    | ["rgap", wid, a, b, set] => match wid.toNat?, a.toNat?, b.toNat?, uncsv set with
+      | some wid, some a, some b, some set => rans st wid (mstep Cfg.fixed st.r (.sub wid (.gap a b set)))
+      | _, _, _, _ => (st, "bad-op")
+    | ["rhb", wid, a, b, c, fin, lv] => match wid.toNat?, a.toNat?, b.toNat?, c.toNat? with
+      | some wid, some a, some b, some c => rans st wid (mstep Cfg.fixed st.r (.sub wid (.hb a b c (fin == "F") (lv == "L"))))
+      | _, _, _, _ => (st, "bad-op")
     | ["rwait", id] => match id.toNat? with
-      | some id => rans st (rstep Cfg.fixed st.r (.waitHist id))
+      | some id => rans st 0 (mstep Cfg.fixed st.r (.waitHist id))
       | none => (st, "bad-op")
-    | ["rstate"] => (st, s!"hist={if histReceived st.r.r then 1 else 0} waiters={csv st.r.waiters} cache={csv (st.r.r.cache.map (·.sn))}")
+    | ["rstate"] => (st, s!"hist={if histReceivedAll st.r.proxies then 1 else 0} waiters={csv st.r.waiters} cache={allCaches st.r}")
     | _ => (st, "bad-op")
 
 end DustVerif.Driver.AckWaitEngine
